@@ -97,9 +97,9 @@ META = {
         technique="Lean 4 proof (trace automaton + predicate-transformer calculus over all call results; interpreter-level atomicity lemma; invariants under all fault plans) + differential correspondence with fault injection + trace monitor",
     ),
     "C19": dict(
-        text="Partial under this technique. Proved: a generic lockset soundness theorem and a lock-order deadlock-freedom theorem for RWMutex transition systems with any number of threads, instantiated by kernel evaluation (decide) on lock/access/call facts extracted from storage/memory.go, token/hmac/hmacsha.go and config_default.go on every run: every map access of the reference store is made under its guarding mutex in a sufficient mode, lock acquisition order is acyclic, no re-acquisition, Config getters assign nothing. Support (not proof): a go test -race stress run with overlapping credentials and a deadlock watchdog supplies concrete race reports as replays.",
+        text="Partial under this technique. Proved: a generic lockset soundness theorem and a lock-order deadlock-freedom theorem for RWMutex transition systems with any number of threads, instantiated by kernel evaluation (decide) on lock/access/call facts extracted from storage/memory.go, token/hmac/hmacsha.go and config_default.go on every run: every map access of the reference store is made under its guarding mutex in a sufficient mode, lock acquisition order is acyclic, no re-acquisition, Config getters assign nothing. Interleavings: a concurrent semantics of the endpoint programs (any number of requests, arbitrary schedule, one storage call = one atomic step) with theorems for ALL schedules: the final state is the sequential fold of the executed steps and every request follows a genuine path of its program; minted values never repeat; a token handed to a caller is active or was removed by a step of another request; dead credentials stay dead. Tied to /repo by the history driver's gated `par` operation (real goroutines, one storage call released per schedule entry, outcome / thread-tagged call log / dump compared with the model's run of the same schedule). Support (not proof): a go test -race stress run with overlapping credentials and a deadlock watchdog supplies concrete race reports as replays.",
         note=COMMON_NOTE + "The Go memory model, the runtime and value-level sharing (Session pointers) are not modelled; see assumptions/partial in the evidence.",
-        technique="Lean 4 proof (lockset soundness + decide over go/ast-extracted lock facts) with race-detector stress as violation search",
+        technique="Lean 4 proof (lockset soundness + decide over go/ast-extracted lock facts; scheduler-quantified theorems over the handler programs) + differential correspondence under prescribed interleavings + race-detector stress as violation search",
     ),
     "C20": dict(
         text="Kernel-checked theorems over the Lean model of errors.go rendering and of every Write* function, for all byte strings and both formats: with debug exposure off every error writer's complete response is invariant under blanking every debug field and wrapped message of the Go error; error_debug exists iff legacy format and exposure on; the RFC-format description contains no double quote; status and error code equal the error's table entry; every writer ends with exactly one Cache-Control: no-store and Pragma: no-cache even against responder-supplied headers; the model equals a table-style specification wherever that prescribes. Tied to /repo by a differential run of the real writers into a ResponseRecorder, read back with independent JSON/URL/HTML parsers, plus a raw leak scan.",
